@@ -75,6 +75,13 @@ var witnesses = []witness{
 		when: func(f pipeline.Flags) bool { return f.Compress && f.FakeRoot },
 	},
 	{
+		id: "F35-toplevel-struct-vs-package-helper", classes: []string{yanggen.ClTopHelper},
+		files: map[string]string{"wa.yang": mod("wa", "  container unzip-schema { container config { leaf x { type string; } } container state { config false; leaf x { type string; } } }\n")},
+		roots: []string{"wa.yang"}, flags: pipeline.Flags{Compress: true, FakeRoot: true},
+		stage: "build", sig: regexp.MustCompile(`(Schema|SchemaTree|UnzipSchema|Unmarshal) (is not a type|redeclared)`),
+		when: func(f pipeline.Flags) bool { return f.Compress },
+	},
+	{
 		id:    "F29-split-files-unused-imports",
 		files: map[string]string{"wa.yang": mod("wa", "  container c { leaf l { type string; } }\n")},
 		roots: []string{"wa.yang"}, flags: pipeline.Flags{FakeRoot: true, SplitFiles: 1},
